@@ -79,6 +79,7 @@ def conj(test):
 
 def run(ctx):
   order(ctx)
+  roll_gap_index(ctx)
   api(ctx)
   escapes(ctx)
   shifts(ctx)
@@ -89,6 +90,46 @@ def run(ctx):
   note_perf_limit(ctx)
   metric_limit(ctx)
   chords(ctx)
+
+
+def roll_gap_index(ctx, rule='ROLL/gap-index-in-range'):
+  """Location-independent: the split_repeats gap clears the step *before* a note, row `offset - 1` of the roll.  For a note that
+  starts on the first row that index is -1, which numpy reads as the LAST row: the gap erases the pitch from the final step of the
+  sequence (finding F26).  Every store into the roll whose row index is `O - 1` must be reached only when 0 < O (equivalently
+  1 <= O) is known for that same O - a guard on a different quantity (the absolute step, say) does not protect the index."""
+  fi = ctx.func('pianoroll_lib:PianorollSequence._from_quantized_sequence')
+  fn = fi.node
+  one = nf.Rat(nf.Poly.const(1))
+  n = 0
+  for st in U.walk_stmts(fn):
+    for tgt, val, op in U.store_targets(st):
+      if not (isinstance(tgt, ast.Subscript) and isinstance(tgt.slice, ast.Tuple) and tgt.slice.elts and not isinstance(tgt.slice.elts[0], ast.Slice)):
+        continue
+      try:
+        row = nf.rat(U.expand_locals(fn, tgt.slice.elts[0], at=st))
+      except nf.NFError:
+        continue
+      p = row.poly()
+      if p is None or p.t.get((), 0) != -1 or p.is_const():
+        continue           # not of the form O - 1
+      off = row + one
+      guarded = False
+      for t, pol in U.path_conditions(fn, st):
+        try:
+          c = nf.compare_nf(U.expand_locals(fn, t, at=st), polarity=pol)
+        except nf.NFError:
+          continue
+        if c is None:
+          continue
+        e, sym = c
+        le = e + one if sym == '<' else (e if sym == '<=' else None)     # integer comparison as  le <= 0
+        if le is not None and le.equals(one - off):
+          guarded = True
+      n += 1
+      ctx.ob(rule, fi, st, guarded, 'row %s is written only when 0 < %r' % (norm_text(tgt.slice.elts[0]), off) if guarded else
+             '%s writes row %s = (%r) - 1 without 0 < %r being established: for a note on the first row the index is -1, numpy\'s last row, and the pitch is erased from the '
+             'final step of the sequence' % (norm_text(st), norm_text(tgt.slice.elts[0]), off, off), construct='gap row index is not negative', definite=True)
+  return n
 
 
 def order(ctx):
@@ -104,7 +145,8 @@ def order(ctx):
           any((dotted(c.func) or '').split('.')[-1] in ('assert_is_relative_quantized_sequence', 'steps_per_bar_in_quantized_sequence') for c in U.calls_in(fi.node)):
         reasons = []    # singleton after quantize_note_sequence (C12 single-writer rule)
       ctx.ob('ORD/' + s.kind, fi, s.stmt if s.kind == 'traversal' else s.node, not reasons,
-             'order-insensitive' if not reasons else '; '.join(reasons) + ' [storage order of %s]' % s.prov.detail, construct=s.what)
+             'order-insensitive' if not reasons else '; '.join(reasons) + ' [storage order of %s]' % s.prov.detail, construct=s.what,
+             unknown=ordr.undecided_reason(s, reasons))
 
 
 def api(ctx):
